@@ -344,7 +344,7 @@ class Gen:
         self.next_id = 1
         self.rot = 0
 
-    def mk(self, archs, cap, T, mode, job=None, filt=None, defcs=None):
+    def mk(self, archs, cap, T, mode, job=None, filt=None, defcs=None, nreq=None, pre=None):
         """archs: [(kind, size, cs, pattern, excl)] with explicit cs"""
         self.rot += 1
         has_shared = any(k in KIND_SHARED for (k, _, _, _, _) in archs)
@@ -365,8 +365,58 @@ class Gen:
             out.append((k, n, None if cs == defcs else cs, pat, ex))
         c = {"id": self.next_id, "cap": cap, "defcs": defcs, "job": job, "filter": filt, "mode": mode, "T": T,
              "archs": out}
+        if nreq:
+            c["nreq"] = nreq
+        if pre:
+            c["pre"] = list(pre)
         self.next_id += 1
         return c
+
+
+# request lists of a NonTemplateJob: A/B/M required, a/b optional, S shared, "0" = empty list
+PRE_DESCS = [(x + y + z + w) or "0" for x in ("A", "a", "") for y in ("B", "b", "") for z in ("M", "")
+             for w in ("S", "")]
+OBS_DESCS = ["A" + y + z + w for y in ("B", "b", "") for z in ("M", "") for w in ("S", "")]
+
+
+def rerun_family(gen, thorough):
+    """one job object run several times with a changed description: the observed run must select by its
+    CURRENT request list (requirement added / dropped / required <-> optional / shared added / dropped)"""
+    out = []
+    worlds = [
+        [("a", 3, 2, "*", False), ("b", 2, 2, "*", False), ("c", 2, 2, "*", False), ("d", 1, 2, "*", False),
+         ("n", 2, 2, "*", False), ("s", 2, 2, "*", False), ("t", 1, 2, "*", False), ("u", 2, 2, "*", False)],
+        [("b", 4, 3, "*", False), ("a", 5, 3, "*", False), ("m", 1, 3, "*", False), ("e", 2, 3, "*", False),
+         ("t", 3, 3, "*", False)],
+    ]
+    k = 0
+    for wi, world in enumerate(worlds):
+        for obs in OBS_DESCS:
+            job = "nts" if "S" in obs else "nt"
+            n = n_selected(world, job, obs)
+            for pre in PRE_DESCS:
+                k += 1
+                T = (1, 2, n + 1, None, 3)[k % 5]
+                filt = ("none", "extra", "ver")[k % 3]
+                mode = ("parallel", "current", "single")[(k // 3) % 3]
+                d = obs if k % 4 else obs[::-1]          # the order of the requests must not matter
+                out.append(gen.mk(world, 2 + wi, T, mode, job=job, filt=filt, defcs=2 + wi, nreq=d, pre=[pre]))
+    rng = gen.rng
+    for _ in range(1500 if thorough else 250):
+        world = worlds[rng.randint(0, 1)]
+        obs = rng.choice(OBS_DESCS)
+        job = "nts" if "S" in obs else "nt"
+        pres = [rng.choice(PRE_DESCS) for _ in range(rng.randint(2, 3))]
+        n = n_selected(world, job, obs)
+        out.append(gen.mk(world, rng.choice([1, 2, 3]), rng.choice([None, 1, 2, n, n + 1]),
+                          rng.choice(["parallel", "current", "single"]), job=job,
+                          filt=rng.choice(["none", "extra", "ver"]), defcs=2, nreq=obs, pre=pres))
+    # typed jobs cannot change their signature; the same object is simply run again
+    for job in JOBS_PLAIN + JOBS_SHARED:
+        for T in (1, 3, None):
+            out.append(gen.mk(worlds[0], 2, T, "parallel", job=job, filt="none", defcs=2, pre=["x"]))
+            out.append(gen.mk(worlds[1], 3, T, "single", job=job, filt="ver", defcs=3, pre=["x", "x"]))
+    return out
 
 
 def exhaustive_small(gen, thorough):
@@ -455,22 +505,31 @@ def random_cfg(gen, max_pop, max_archs, big=False):
             pat = "".join("1" if rng.random() < p else "0" for _ in range(chunks))
         archs.append((kd, size, cs, pat, rng.random() < 0.08))
     cap = rng.choice([1, 2, 3, 4, 5, 8, 16, 33]) if not big else rng.choice([0, 0, 4096, 1000, 16384])
-    n = n_selected(archs)
-    r = rng.random()
-    if r < 0.15:
-        T = None
-    elif r < 0.3:
-        T = n + 1
-    elif r < 0.4:
-        T = n
-    elif r < 0.45:
-        T = n + rng.randint(2, 9)
-    elif r < 0.5:
-        T = 0
-    else:
-        T = rng.randint(1, max(1, min(n, 40 if big else n)))
+    def draw_T(n):
+        r = rng.random()
+        if r < 0.15:
+            return None
+        if r < 0.3:
+            return n + 1
+        if r < 0.4:
+            return n
+        if r < 0.45:
+            return n + rng.randint(2, 9)
+        if r < 0.5:
+            return 0
+        return rng.randint(1, max(1, min(n, 40 if big else n)))
+
+    T = draw_T(n_selected(archs))
     mode = rng.choice(["current", "parallel", "parallel", "single"])
-    return gen.mk(archs, cap, T, mode)
+    c = gen.mk(archs, cap, T, mode)
+    if c["job"] in ("nt", "nts") and rng.random() < 0.6:
+        # a run-time described job whose description changed since its earlier runs
+        c["nreq"] = rng.choice([d for d in OBS_DESCS if ("S" in d) == (c["job"] == "nts")])
+        c["pre"] = [rng.choice(PRE_DESCS) for _ in range(rng.randint(0, 2))]
+        c["T"] = draw_T(n_selected(archs, c["job"], c["nreq"]))
+    elif rng.random() < 0.1 and not big:
+        c["pre"] = ["x"]
+    return c
 
 
 def corpus_cfgs(gen):
@@ -549,6 +608,19 @@ def classify(c, w, lines):
     else:
         tags.append("1<T<N")
     tags.append("job:" + c["job"])
+    if c.get("pre"):
+        tags.append("reruns:%d" % len(c["pre"]))
+        if c["job"] in ("nt", "nts"):
+            obs = observed_desc(c)
+            last = c["pre"][-1]
+            if any(ch in last and ch not in obs for ch in "ABM"):
+                tags.append("rerun:requirement_dropped")
+            if any(ch in obs and ch not in last for ch in "ABM"):
+                tags.append("rerun:requirement_added")
+            if any(ch.upper() in last and ch in obs for ch in "ab") or any(ch in last and ch.upper() in obs for ch in "ab"):
+                tags.append("rerun:required<->optional")
+            if ("S" in last) != ("S" in obs):
+                tags.append("rerun:shared_changed")
     tags.append("mode:" + c["mode"])
     tags.append("filter:" + c["filter"])
     matched = len({a for (a, _) in reference(c, w)})
@@ -606,6 +678,18 @@ def shrink(exe, drv, c, threads, want_oracle, budget=150, hang=False):
             for t2 in sorted({1, cur["T"] // 2, cur["T"] - 1}):
                 if 1 <= t2 < cur["T"]:
                     cands.append(dict(cur, T=t2))
+        pre = cur.get("pre") or []
+        for i in range(len(pre)):
+            cands.append(dict(cur, pre=pre[:i] + pre[i + 1:]))
+        for i, d in enumerate(pre):
+            for j in range(len(d)):
+                if len(d) > 1:
+                    cands.append(dict(cur, pre=pre[:i] + [d[:j] + d[j + 1:]] + pre[i + 1:]))
+        nr = cur.get("nreq")
+        if nr:
+            for j in range(len(nr)):
+                if nr[j] != "A" and not (nr[j] == "S" and cur["job"] == "nts"):
+                    cands.append(dict(cur, nreq=nr[:j] + nr[j + 1:]))
         if cur["mode"] == "single":
             cands.append(dict(cur, mode="parallel"))
         if cur["filter"] == "ver":
@@ -734,6 +818,9 @@ def _run(ctx, exe, drv, internals, t0):
         bs = 2000
         for i in range(0, len(small), bs):
             work.append(("exhaustive", threads_default, small[i:i + bs]))
+        rer = rerun_family(gen, ctx.thorough)
+        for i in range(0, len(rer), 400):
+            work.append(("rerun", threads_default, rer[i:i + 400]))
         nrand = 300000 if ctx.thorough else 6000
         rnd = [random_cfg(gen, 40, 4) for _ in range(nrand)]
         for i in range(0, len(rnd), 1000):
